@@ -4,6 +4,7 @@ PROPS = {
     'C05': {'units': ['directory'], 'kani': ['varint'], 'witness': 'C05'},
     'C19': {'units': ['directory', 'tile_manager'], 'witness': 'C19'},
     'C08': {'units': ['directory', 'tile_manager', 'read_directories'], 'witness': 'C08'},
+    'C06': {'units': ['write_directories', 'directory'], 'witness': 'C06'},
     'C11': {'units': ['read_directories'], 'witness': 'C11'},
     'C03': {'units': ['directory', 'read_directories', 'tile_manager'], 'witness': 'C03'},
     'C04': {'units': ['tile_manager'], 'witness': 'C04'},
